@@ -245,9 +245,12 @@ class Solver:
             raise SimSATError('solve() after delete()')
         c = ctx.cur
         site = 'sat.solve'
-        c.calls.bump(site)
+        fault = c.fault_at(site)  # counts the call
         k = c.calls[site]
         c.stats.peer_calls.bump(site)
+        if fault is not None and fault.get('kind') == 'backend-error':
+            # the back end gives up (out of memory, internal error): PySAT surfaces that as an exception from solve()
+            raise RuntimeError('SimSAT: the solver back end failed (injected)')
         rng = c.rng(site, k)
         clauses = self._clauses
         nv = max([self._nv] + [abs(l) for l in assumptions])
